@@ -806,7 +806,17 @@ func bvBin(op string, a, b *Term) *Term {
 				}
 			}
 			if i != nil {
-				return app(fmt.Sprintf("(_ int2bv %d)", w), KBV, w, i)
+				r := app(fmt.Sprintf("(_ int2bv %d)", w), KBV, w, i)
+				// keep the (no-overflow) Int-form exactly where it was kept before
+				if a.I != nil && b.I != nil {
+					switch {
+					case op == "bvadd":
+						r.I = intAdd(a.I, b.I)
+					case op == "bvsub" && w >= 32:
+						r.I = intSub(a.I, b.I)
+					}
+				}
+				return r
 			}
 		}
 	}
